@@ -49,7 +49,7 @@ m("C03", "elevation-test-after-rules-wireserver", PA, "impl Authorizer for WireS
 m("C03", "hostga-disabled-mode-shortcut", PA, "impl Authorizer for GAPlugin {\n    fn authorize(\n        &self,\n        logger: &mut ConnectionLogger,\n        request_url: hyper::Uri,\n        access_control_rules: Option<ComputedAuthorizationItem>,\n    ) -> AuthorizeResult {\n",
   "impl Authorizer for GAPlugin {\n    fn authorize(\n        &self,\n        logger: &mut ConnectionLogger,\n        request_url: hyper::Uri,\n        access_control_rules: Option<ComputedAuthorizationItem>,\n    ) -> AuthorizeResult {\n        if let Some(r) = &access_control_rules {\n            if r.mode == AuthorizationMode::Disabled {\n                return AuthorizeResult::Ok;\n            }\n        }\n")
 # ---- C04
-m("C04", "sign-before-date-header", PS, "        proxy_request.headers_mut().insert(\n            HeaderName::from_static(constants::DATE_HEADER),", "        let mut _unused = hyper::HeaderMap::new();\n        _unused.insert(\n            HeaderName::from_static(constants::DATE_HEADER),")
+m("C05", "date-header-never-added", PS, "        proxy_request.headers_mut().insert(\n            HeaderName::from_static(constants::DATE_HEADER),", "        let mut _unused = hyper::HeaderMap::new();\n        _unused.insert(\n            HeaderName::from_static(constants::DATE_HEADER),")
 m("C04", "body-dropped-from-string-to-sign-when-large", HC, "    data.extend(LF.as_bytes());\n    data.extend(body);\n    data.extend(LF.as_bytes());\n\n    data.extend(headers_to_canonicalized_string(&head.headers).as_bytes());", "    data.extend(LF.as_bytes());\n    if body.len() < 65536 {\n        data.extend(body);\n    }\n    data.extend(LF.as_bytes());\n\n    data.extend(headers_to_canonicalized_string(&head.headers).as_bytes());")
 m("C04", "header-value-not-trimmed-own-route", HC, '        let h = format!("{}:{}{}", key, map[key].1.trim(), separator);', '        let h = format!("{}:{}{}", key, map[key].1, separator);')
 m("C04", "collision-regression", HC, '(format!("{}{}", key, value), key.to_string()),', '(format!("{}{}", key, value), String::new()),')
@@ -106,6 +106,8 @@ m("C16", "tick-zero-regression", PS, "        let report_provision_finished = (p
 m("C16", "status-tag-in-place", PROV, "    let status_file: PathBuf = provision_dir.join(STATUS_TAG_TMP_FILE_NAME);", "    let status_file: PathBuf = provision_dir.join(STATUS_TAG_FILE_NAME);")
 m("C16", "reset-keeps-finished", PW, "                        provision_finished_time_tick =\n                            if provision_state.contains(ProvisionFlags::ALL_READY) {\n                                misc_helpers::get_date_time_unix_nano()\n                            } else {\n                                0\n                            };", "")
 m("C16", "error-text-wrong-bit", PROV, "    if !provision_state.contains(ProvisionFlags::LISTENER_READY) {\n        state.push_str(&format!(\n            \"proxyListenerStatus", "    if !provision_state.contains(ProvisionFlags::KEY_LATCH_READY) {\n        state.push_str(&format!(\n            \"proxyListenerStatus")
+m("C16", "shared-tmp-name-regression", PROV, '        "{}.{}.{}",\n        STATUS_TAG_TMP_FILE_NAME,\n        misc_helpers::get_thread_identity(),\n        misc_helpers::get_date_time_unix_nano()', '        "{}.{}.{}",\n        STATUS_TAG_TMP_FILE_NAME,\n        0,\n        0')
+m("C14", "send-without-ready-regression", PC, "        self.sender.ready().await.map_err(|e| {", "        std::future::ready(Ok::<(), hyper::Error>(())).await.map_err(|e| {")
 # ---- C17
 m("C17", "ebpf-missing-from-backup", SETUP, "    copy_file(PathBuf::from(EBPF_PATH), backup_folder.join(EBPF_FILE));\n    copy_file(\n        running::proxy_agent_running_folder(\"\").join(\"azure-proxy-agent\"),", "    copy_file(\n        running::proxy_agent_running_folder(\"\").join(\"azure-proxy-agent\"),")
 m("C17", "restore-from-package-folder", SETUPM, "    let src_folder = backup::proxy_agent_backup_package_folder();\n    let dst_folder =\n        running::proxy_agent_version_target_folder(&setup::proxy_agent_exe_path(&src_folder));", "    let src_folder = setup::proxy_agent_folder_in_setup();\n    let dst_folder =\n        running::proxy_agent_version_target_folder(&setup::proxy_agent_exe_path(&src_folder));")
